@@ -1,3 +1,10 @@
 #!/bin/sh
-# placeholder until the framework exists
-exit 0
+# Build the framework from files on disk only (offline) and warm the Go build cache.
+cd "$(dirname "$0")" || exit 1
+export GOFLAGS=-mod=mod GOPROXY=off
+unset GOTOOLCHAIN GOSUMDB GORACE
+mkdir -p bin evidence replays
+(cd sim && go build ./... && go build -o ../bin/verif-check ./cmd/verif-check) || exit 1
+# warm: the repository itself and the packages the simulated worlds link
+(cd /repo && go build ./... ) || exit 1
+echo "setup ok"
